@@ -359,6 +359,27 @@ func runC17(c *Ctx) {
 		// a fast path tests "this host name is empty" or "the two host names are the same" and
 		// then writes what the general path would compute: each such test is taken both ways, with
 		// the equality it states used in the case where it holds
+		// what the domain helper makes of the empty host name, read off its own first test: a fast
+		// path for "no source" relies on it
+		axEmpty := map[string]*E{}
+		{
+			g2 := NewGate(c.P)
+			g2.Inline = inlineOnly()
+			s2 := g2.Eval(etld)
+			if r2 := g2.RetExpr(s2, 0); r2 != nil && len(g2.ParamExprs(etld)) == 1 {
+				if f := g2.U.Subst(r2, map[string]*E{g2.ParamExprs(etld)[0].key: g2.U.Str("")}); f != nil {
+					if sv, ok := f.StrVal(); ok {
+						axEmpty[u.Call(calleeName(etld), strT, u.Str("")).key] = u.Str(sv)
+					}
+				}
+			}
+		}
+		withAx := func(e *E) *E {
+			if e == nil || len(axEmpty) == 0 {
+				return e
+			}
+			return u.Subst(e, axEmpty)
+		}
 		var semEqualSplit func(got, want *E, depth int) (bool, string)
 		semEqualSplit = func(got, want *E, depth int) (bool, string) {
 			ok, why := semEqualByCase(got, want)
@@ -367,11 +388,16 @@ func runC17(c *Ctx) {
 			}
 			seen := map[string]bool{}
 			var ats []*E
-			collect := func(f Ref) {
+			var collect func(f Ref)
+			collect = func(f Ref) {
 				for _, at := range u.AtomsOf(f) {
 					if !seen[at.key] {
 						seen[at.key] = true
 						ats = append(ats, at)
+						// the tests inside selected values the atom compares
+						for _, it := range u.Collect(at, func(x *E) bool { return x.Op == "ite" }) {
+							collect(it.B)
+						}
 					}
 				}
 			}
@@ -402,13 +428,19 @@ func runC17(c *Ctx) {
 				}
 				pos := u.Atom(at)
 				sub := map[string]*E{from.key: to}
-				gA, wA := pureAt(u.Subst(u.Specialize(got, pos), sub)), pureAt(u.Subst(u.Specialize(want, pos), sub))
+				gA, wA := pureAt(withAx(u.Subst(u.Specialize(got, pos), sub))), pureAt(withAx(u.Subst(u.Specialize(want, pos), sub)))
 				gB, wB := u.Specialize(got, u.bdd.Not(pos)), u.Specialize(want, u.bdd.Not(pos))
-				okA, _ := semEqualSplit(gA, wA, depth+1)
+				okA, whyA := semEqualSplit(gA, wA, depth+1)
+				if os.Getenv("UFCHECK_DEBUG_C17") != "" {
+					fmt.Println("SPLIT depth", depth, "on", clip(u.Show(at), 100), "A:", okA, clip(whyA, 300))
+				}
 				if !okA {
 					continue
 				}
-				okB, _ := semEqualSplit(gB, wB, depth+1)
+				okB, whyB := semEqualSplit(gB, wB, depth+1)
+				if os.Getenv("UFCHECK_DEBUG_C17") != "" {
+					fmt.Println("SPLIT depth", depth, "on", clip(u.Show(at), 100), "B:", okB, clip(whyB, 300))
+				}
 				if okB {
 					return true, ""
 				}
